@@ -34,6 +34,7 @@ type Program struct {
 	fset      *token.FileSet
 	assumed   []string
 	recSpec   map[string]bool
+	curCaller string
 	specComps     map[string][]string
 	specCompSorts map[string]string
 }
@@ -233,6 +234,11 @@ func (P *Program) funcEffects(fn *ssa.Function) *effects {
 		return &effects{comps: map[string]string{}}
 	}
 	P.effBusy[fn] = true
+	savedCaller := P.curCaller
+	if fn.Pkg != nil {
+		P.curCaller = fn.RelString(fn.Pkg.Pkg)
+	}
+	defer func() { P.curCaller = savedCaller }()
 	e := &effects{comps: map[string]string{}}
 	changed := true
 	for iter := 0; changed && iter < 5; iter++ {
@@ -298,6 +304,11 @@ func (P *Program) recursive(fn *ssa.Function) bool { return true }
 // callEffects: effects of one call instruction.
 func (P *Program) callEffects(ci ssa.CallInstruction, vc *VC) *effects {
 	c := ci.Common()
+	if vc != nil && vc.fn != nil {
+		saved := P.curCaller
+		P.curCaller = vc.fn.RelString(vc.fn.Pkg.Pkg)
+		defer func() { P.curCaller = saved }()
+	}
 	e := &effects{comps: map[string]string{}}
 	if c.IsInvoke() {
 		key := "(" + typeName(c.Value.Type()) + ")." + c.Method.Name()
@@ -359,6 +370,11 @@ func (P *Program) staticEffects(callee *ssa.Function, c *ssa.CallCommon) *effect
 	}
 	key := P.funcKey(callee)
 	fc := P.contracts.Funcs[key]
+	if P.curCaller != "" {
+		if o := P.contracts.Funcs[key+"@"+P.curCaller]; o != nil {
+			fc = o
+		}
+	}
 	if fc == nil && len(c.Args) > 0 && callee.Signature.Recv() != nil {
 		// receiver-provenance keyed contracts (regexps) are pure
 		return &effects{comps: map[string]string{}, allocs: true}
@@ -380,6 +396,18 @@ func (P *Program) externEffects(key string, fc *FuncContract, c *ssa.CallCommon)
 		for _, mi := range mc.Mods {
 			if mi.Elems != nil {
 				// elems(p): the element component of the named parameter
+				if call, ok := mi.Elems.(*ECall); ok && call.Fn == "sliceof" && len(call.Args) == 1 {
+					if id, ok := call.Args[0].(*EIdent); ok {
+						names := fc.ExtNames
+						for i, n := range names {
+							if n == id.Name && i < len(c.Args) {
+								if mk, ok := c.Args[i].(*ssa.MakeInterface); ok {
+									leafComps(elemTypeOf(mk.X.Type()), e.comps)
+								}
+							}
+						}
+					}
+				}
 				if id, ok := mi.Elems.(*EIdent); ok {
 					args := c.Args
 					names := fc.ExtNames
